@@ -149,6 +149,13 @@ pub struct KnownFinding {
     pub commit: Option<String>,
 }
 
+/// Where evidence files and new replay files are written: /verif, unless
+/// JMV_OUT_DIR redirects them (runs against scratch copies with seeded
+/// changes must not overwrite the evidence of the real tree).
+pub fn out_dir() -> PathBuf {
+    std::env::var("JMV_OUT_DIR").map(PathBuf::from).unwrap_or_else(|_| verif_dir())
+}
+
 pub fn verif_dir() -> PathBuf {
     std::env::var("VERIF_DIR").map(PathBuf::from).unwrap_or_else(|_| PathBuf::from("/verif"))
 }
@@ -761,7 +768,7 @@ pub fn clip(s: &str, n: usize) -> String {
 
 pub fn save_replay(prop: &str, fl: &Failure, input: &Value, seed: u64) -> PathBuf {
     let sub_for_replay = fl.replay_override.as_ref().map(|(s, _)| s.clone()).unwrap_or_else(|| fl.sub.clone());
-    let dir = verif_dir().join("replays/new");
+    let dir = out_dir().join("replays/new");
     let _ = std::fs::create_dir_all(&dir);
     let h = fnv(format!("{}{}{}", fl.sub, fl.sig, input).as_bytes());
     let path = dir.join(format!("{}-{}-{:016x}.json", prop, fl.sub, h));
@@ -793,7 +800,7 @@ fn write_evidence(
     violations: usize,
     t0: Instant,
 ) {
-    let path = verif_dir().join("evidence").join(format!("{}.json", p.id));
+    let path = out_dir().join("evidence").join(format!("{}.json", p.id));
     let ev = json!({
         "property_id": p.id,
         "tier": tier.name(),
